@@ -399,6 +399,13 @@ SelectInline(t) ==
                        ELSE out' = Val(Show(disk[t])) /\ UNCHANGED ended
   /\ UNCHANGED <<disk, cache, dirty, created, temp, envn, enc>>
 
+\* SELECT * FROM `F1.csv` where only f1.csv exists: file names are what the file system says they are - on a file system that
+\* tells letter cases apart there is no such table, whatever the transaction has loaded under the other spelling
+SelectCase(t) ==
+  /\ t \in Files /\ cwd = "top"
+  /\ out' = Err("FileNotExist") /\ ended' = Script
+  /\ UNCHANGED <<disk, cache, dirty, created, temp, envn, enc>>
+
 \* ALTER TABLE t SET ENCODING TO SJIS : a table attribute; the table is loaded for update and counts as changed
 \* (it has to be written in the new encoding), its rows stay; setting the value it already has does nothing
 SetEnc(t) ==
@@ -553,6 +560,7 @@ DoRes(a) ==
        [] a.act = "inserth"  -> InsertH(a.t, a.k)
        [] a.act = "selectfn" -> SelectFn(a.t)
        [] a.act = "selectinline" -> SelectInline(a.t)
+       [] a.act = "selectcase" -> SelectCase(a.t)
        [] a.act = "insertd"  -> InsertD(a.t, a.k)
        [] a.act = "deleted"  -> DeleteD(a.t)
        [] a.act = "selectd"  -> SelectD(a.t)
@@ -596,6 +604,7 @@ Actions ==
   \cup {A("inserth", t, k, 0) : t \in Tables, k \in Keys}
   \cup {A("selectfn", t, 0, 0) : t \in AllFiles}
   \cup {A("selectinline", t, 0, 0) : t \in AllFiles}
+  \cup {A("selectcase", t, 0, 0) : t \in Files}
   \cup {A("insertd", t, k, 0) : t \in Tables, k \in Keys}
   \cup {A(x, t, 0, 0) : x \in {"deleted", "selectd"}, t \in Tables}
   \cup {[act |-> "insertsub", t |-> t, u |-> u, k |-> k, x |-> x] : t \in Tables, u \in Tables \ {NewFile}, k \in Keys, x \in {0, 1}}
